@@ -531,8 +531,14 @@ def d1_framing(ctx):
                       % (rx.pattern, 'IGNORECASE' if rx.ignorecase else 'none', missed), grs.loc(call),
                       okmsg='chunked test is case-insensitive')
             if not acc('gzip, chunked'):
-                ck.remark('C08-D1: a Transfer-Encoding list whose final coding is chunked ("gzip, chunked") is not recognised as '
-                          'chunked; wpull implements no other transfer coding, so this is recorded, not reported')
+                if getattr(ctx, 'prop', None) == 'C08':
+                    ck.bad('C08-D1', grs.qual, 'a coding list whose final coding is chunked is read as chunked',
+                           'RFC 7230 3.3.3 (3): `Transfer-Encoding: gzip, chunked` (or `chunked` on a second field line) is delimited by '
+                           'chunks; the token test looks at the start of the first value only, so such a body is read until close - a hang '
+                           'on a persistent connection, chunk framing delivered as payload otherwise', grs.loc(call))
+                else:
+                    ck.remark('C08-D1: a Transfer-Encoding list whose final coding is chunked ("gzip, chunked") is not recognised as '
+                              'chunked (a C08 finding; the bytes recorded are still the wire bytes)')
         chunk_key = ('T', txt(it.canon.rename(call)))
     # --- strategy table
     cl_keys = []
